@@ -324,6 +324,10 @@ func (w *cWorld) onSend(f rsocks.Frame) {
 			copy(reply, []byte{0, 1, 8, 0, 6, 4, 0, 2})
 			copy(reply[8:14], mac)
 			binary.BigEndian.PutUint32(reply[14:], target)
+			if w.r.Intn(3) == 0 { // the owner defends its address with a packet in request form (gratuitous ARP)
+				reply[7] = 1
+				binary.BigEndian.PutUint32(reply[24:], target)
+			}
 			w.after(d, func() { w.seg.Inject(rsocks.KindARP, reply) })
 		}
 		if sender == 0 { // ARP check of the acknowledged address (one request per check)
